@@ -24,7 +24,9 @@ def universe(obstacle, ups=6):
     return [TypeDef('A', 's.ts', [], '{ a: number, }'), TypeDef('B', 's.ts', [], 'string'), TypeDef('C', 'sub/C.ts', [0], '{ a: A, }'),
             TypeDef('E', up + 'E.ts', [0], 'A'), TypeDef('D', None),
             # F's first dependency (C) can be obstructed while its second one (A) exports fine afterwards
-            TypeDef('F', 'F.ts', [2, 0], '{ c: C, a: A, }')]
+            TypeDef('F', 'F.ts', [2, 0], '{ c: C, a: A, }'),
+            # G -> H -> E: the obstructed type two levels below the root
+            TypeDef('G', 'G.ts', [7], '{ h: H, }'), TypeDef('H', 'H.ts', [3], '{ e: E, }')]
 
 
 def target_of(obstacle, t):
@@ -112,6 +114,8 @@ def explore(item):
                         must_fail = False      # the obstacle is not on this call's way
                     if obstacle == 'target_is_dir' and t == 5 and entry == 'export':
                         must_fail = False      # export(F) alone does not touch C's file
+                    if obstacle == 'dotdot' and t == 6 and entry == 'export':
+                        must_fail = False      # export(G) alone writes G.ts, which imports only H
                     if r is not None and r[0] == 'panic':
                         why = f'{entry}({name}) panics under obstacle {obstacle}: {r[1]}'
                     elif must_fail and r is None:
@@ -227,11 +231,11 @@ def main():
     nsteps = 2 if quick else 3
     for ob in OBSTACLES:
         for k in range(nsteps):
-            victims = {'target_is_dir': [0, 2, 5], 'parent_is_file': [2, 0, 5], 'dotdot': [3], 'not_exportable': [4]}[ob]
+            victims = {'target_is_dir': [0, 2, 5], 'parent_is_file': [2, 0, 5], 'dotdot': [3, 6, 7], 'not_exportable': [4]}[ob]
             for v in victims:
                 for ups in ([3, 4, 6] if ob == 'dotdot' else [0]):
                     items.append((ob, nsteps, k, v, ups))
-    rep.bounds = {'universe': 'A, B -> s.ts; C -> sub/C.ts (depends on A); F -> F.ts (depends on C, then A); E -> (../)^n E.ts with n in {depth+1, depth+2, depth+4} under the `dotdot` obstacle; D not exportable',
+    rep.bounds = {'universe': 'A, B -> s.ts; C -> sub/C.ts (depends on A); F -> F.ts (depends on C, then A); E -> (../)^n E.ts with n in {depth+1, depth+2, depth+4} under the `dotdot` obstacle, G -> H -> E (the obstructed type at depth 2); D not exportable',
                   'history_length': nsteps, 'entry_points': ENTRIES, 'obstacles': OBSTACLES,
                   'fault_position': 'every step', 'other_steps': 'symbolic entry point x type in {A, B, C}', 'cells': len(items)}
     rep.outside += ['I/O errors in the middle of a write (not part of the statement)', 'permission errors', 'more than one obstacle per history']
